@@ -42,6 +42,23 @@ def lex_db(n):
     return "_:b%d" % n
 
 
+# mode "text": terms with multi-byte characters (2-, 3-, 4-byte UTF-8; IRIs, literals - also with blanks -, prefixed and
+# blank-node names) that reach the dictionary only through the TEXT handed to encode_term_star.  (kind, cleaned lexical form)
+TEXT_LEX = [("iri", "urn:caf\u00e9"), ("iri", "urn:p"), ("lit", "na\u00efve \u2603"), ("iri", "http://\u4f8b\u3048.jp/\u30d1\u30b9"),
+            ("lit", "\U0001d11e clef \U0001f600"), ("bare", "ex:\u03a9mega"), ("lit", "\u00df"), ("bare", "_:b\u00e9"),
+            ("iri", "urn:x-\U0001f600"), ("lit", "a"), ("iri", "urn:\u00e9\u00e9"), ("lit", "\u2603")]
+
+
+def lex_text(n):
+    return TEXT_LEX[n][1] if n < len(TEXT_LEX) else "urn:t\u00e9%d" % n
+
+
+def text_input(n):
+    """the surface form of term n as it is written in a request / document"""
+    kind, s = TEXT_LEX[n] if n < len(TEXT_LEX) else ("iri", lex_text(n))
+    return "<%s>" % s if kind == "iri" else ('"%s"' % s if kind == "lit" else s)
+
+
 def unlex(table, s):
     return table[s]
 
@@ -69,6 +86,8 @@ def term_str(t, lex):
 def term_input(t, lex, rng):
     """a string for encode_term_star that denotes t: IRIs may come in angle brackets"""
     if isinstance(t, int):
+        if lex is lex_text:
+            return text_input(t)
         s = lex(t)
         if s.startswith("http") and rng.random() < 0.5:
             return "<%s>" % s
@@ -164,8 +183,12 @@ def op_coq(op):
     raise ValueError(t)
 
 
+def lex_of(mode):
+    return lex_db if mode == "db" else (lex_text if mode == "text" else lex_raw)
+
+
 def seq_case(ops, mode, rng, start_next=None, start_next_qt=None):
-    lex = lex_db if mode == "db" else lex_raw
+    lex = lex_of(mode)
     jops = []
     for op in ops:
         if op[0] == "Enc":
@@ -266,6 +289,13 @@ def seq_oracle(case, outs):
             i = op[1]
             if i in key_of_id and (o["key"] is None or tuple(o["key"]) != key_of_id[i]):
                 return "step %d: quoted decode(%d) = %r but the id was handed out for %r" % (k, i, o["key"], key_of_id[i])
+            # structural identity over terms: a quoted term's components are the ids of the same terms encoded on their own
+            for tm, i2 in id_of_term.items():
+                if i2 == i and not isinstance(tm, int) and all(x in id_of_term for x in tm):
+                    want = [id_of_term[x] for x in tm]
+                    if o["key"] != want:
+                        return ("step %d: the components of quoted id %d are %r, but its three component terms encoded on their own have ids %r"
+                                % (k, i, o["key"], want))
         elif t == "EncT":
             i, tm = o["id"], tuplify(op[1])
             if (i >= QBIT) != (not isinstance(tm, int)):
@@ -326,7 +356,7 @@ def eval_seq(ctx, binpath, cases, stream):
     kinds = {}
     for c, im, mo in zip(cases, impl, model):
         ctx.count()
-        lex = lex_db if c["mode"] == "db" else lex_raw
+        lex = lex_of(c["mode"])
         c["_lex"] = lex
         pub = {k: v for k, v in c.items() if k not in ("_lex",)}
         for o in c["mops"]:
@@ -454,6 +484,38 @@ def boundary_seq(rng, thorough):
     return cases
 
 
+def text_seq(rng, n):
+    """quoted triples written as TEXT with multi-byte characters in their components, through encode_term_star:
+    decode_any must render the same components, and a component inside a quoted triple must have the id the same term
+    gets on its own (checked by DecQ of the quoted id against the ids of the components encoded alone)"""
+    names = list(range(len(TEXT_LEX)))
+    cases = []
+    for _ in range(n):
+        sim = Sim()
+        ops = []
+        for _ in range(rng.choice([3, 6, 10])):
+            t = rand_term(rng, names, rng.choice([1, 2, 3, 4]))
+            if isinstance(t, int):
+                t = (t, rng.choice(names), rng.choice(names))
+            order = rng.random()
+            parts = [("EncT", x) for x in t]
+            if order < 0.4:              # components first, then the quoted triple
+                new = parts + [("EncT", t)]
+            elif order < 0.8:            # quoted triple first, then its components on their own
+                new = [("EncT", t)] + parts
+            else:
+                new = [("EncT", t), ("Enc", rng.choice(names))]
+            for o in new:
+                sim.apply(o)
+            qid = sim.enct(t)
+            new += [("DecT", qid), ("DecQ", qid)]
+            if rng.random() < 0.5:
+                new.append(("DecT", sim.enct(t[0])))
+            ops += new
+        cases.append(seq_case(ops, "text", rng))
+    return cases
+
+
 def random_seq(rng, n):
     sim = Sim()
     names = list(range(rng.choice([3, 6, 13])))
@@ -504,6 +566,8 @@ def bop_coq(op):
     if t == "DelQuad":
         return "BDelQuad %s %s %s %s" % (term_coq(op[1]), term_coq(op[2]), term_coq(op[3]),
                                          "None" if op[4] is None else "(Some %d%%N)" % op[4])
+    if t == "Seed":
+        return "BSeed %s %s %s %d%%N" % (term_coq(op[1]), term_coq(op[2]), term_coq(op[3]), op[4])
     raise ValueError(t)
 
 
@@ -524,6 +588,8 @@ def bop_json(op, rng):
         return ["Encode", tj(op[1])]
     if t == "DelQuad":
         return ["DelQuad", tj(op[1]), tj(op[2]), tj(op[3]), None if op[4] is None else lex_db(op[4])]
+    if t == "Seed":
+        return ["Seed", tj(op[1]), tj(op[2]), tj(op[3]), op[4]]
     raise ValueError(t)
 
 
@@ -823,7 +889,18 @@ def rand_bops(rng, names, gnames, n, quoted_pool):
             ops.append(("AddTriple", rng.choice(names), rng.choice(names), rng.choice(names)))
         elif r < 0.74:
             sn = sorted(names)[:2]     # the same few triples in both operands, so that seeds clash
-            ops.append(("Tagged", rng.choice(sn), rng.choice(sn), rng.choice(sn), rng.randrange(0, 17)))
+            tg = ("Tagged", rng.choice(sn), rng.choice(sn), rng.choice(sn), rng.randrange(0, 17))
+            k = rng.random()
+            if k < 0.55:
+                ops.append(tg)
+            elif k < 0.75:               # the seed of a fact that is retracted afterwards
+                ops.append(tg)
+                ops.append(("DelQuad", tg[1], tg[2], tg[3], None))
+            elif k < 0.88:               # a seed (public map) whose triple is asserted in a named graph only
+                ops.append(("AddQuad", tg[1], tg[2], tg[3], rng.choice(gnames)))
+                ops.append(("Seed", tg[1], tg[2], tg[3], tg[4]))
+            else:                        # a seed whose triple (possibly about quoted terms) is asserted nowhere
+                ops.append(("Seed", T(2), rng.choice(sn), T(2), tg[4]))
         elif r < 0.82:
             ops.append(("Create", rng.choice(gnames + names[:2])))
         elif r < 0.90:
@@ -980,6 +1057,10 @@ def run(ctx):
                                         "alternately on the bare structs and inside a SparqlDatabase" % (len(ex), L))
     # the limits of the two id ranges (public counters set beforehand)
     eval_seq(ctx, binpath, boundary_seq(rng, ctx.thorough), "boundary_seq")
+    # the string layer of encode_term_star on multi-byte text
+    tx = text_seq(rng, 600 if ctx.thorough else 60)
+    ctx.sample({"text_history": tx[0]["ops"][:4]})
+    eval_seq(ctx, binpath, tx, "text_seq")
     # random sequences
     n = 5000 if ctx.thorough else 500
     rs = [seq_case(random_seq(rng, 60 if ctx.thorough else 40), "db" if i % 2 else "raw", rng) for i in range(n)]
